@@ -92,6 +92,36 @@ class TextWidthFilter(_HelperFilter):
         return TW(z3.Select(st.get_arr('f:TextWidth'), Val.oid(v)))
 
 
+@register
+class TextWidthRank(FnCheck):
+    id = 'C20.tw2i'
+    prop = 'C20'
+    target = f'{LS}:_tw2i'
+    replay_fn = 'C20:tw2i'
+    doc = ('_tw2i (the rank every TextWidth comparison of the text filter uses): xs < s < m < l < xl < xxl are ranked '
+           '0..5 and a text WITHOUT TextWidth gets a rank above every width a request can name - it never satisfies a '
+           'TextWidth constraint (BICEPS: matching = width less than or equal to the requested one)')
+
+    WIDTHS = ('xs', 's', 'm', 'l', 'xl', 'xxl')
+
+    def setup(self, b):
+        self.w = b.any('text_width', maybe_none=True)
+        b.st.assume(z3.Or(Val.is_none(self.w.e), *[self.w.e == Val.str(z3.StringVal(x)) for x in self.WIDTHS]))
+        return None, [self.w], {}
+
+    def post(self, ex, st0, st, outcome, b):
+        if outcome[0] == 'exc':
+            ex.oblige(st, 'never_raises', z3.BoolVal(False), info={'exc': repr(outcome[1])})
+            return
+        r = ex.concrete_kind(st, outcome[1], ('int',))
+        if r.kind != 'int':
+            ex.oblige(st, 'rank_is_an_integer', z3.BoolVal(False))
+            return
+        for n, x in enumerate(self.WIDTHS):
+            ex.oblige(st, f'rank_of_{x}', z3.Implies(self.w.e == Val.str(z3.StringVal(x)), r.e == n))
+        ex.oblige(st, 'missing_width_ranks_above_every_requestable_width', z3.Implies(Val.is_none(self.w.e), r.e > len(self.WIDTHS) - 1))
+
+
 # ---------------------------------------------------------------------------------------------------------------
 # handle resolution of GetMdState / GetContextStates against the BICEPS selection rules
 GS = 'sdc11073.provider.porttypes.getserviceimpl'
